@@ -334,3 +334,42 @@ Qed.
 
 Lemma new_ostream_ok : stream_ok (new_ostream None) /\ good (new_ostream None).
 Proof. split; [exact I|repeat split]. Qed.
+
+(* ---- from pointwise to slices ---- *)
+Lemma nthN_ext (a b : bytes) : lenN a = lenN b -> (forall i, i < lenN a -> nthN a i 0 = nthN b i 0) -> a = b.
+Proof.
+  revert b; induction a as [|x t IH]; intros [|y u] HL H; cbn [lenN] in HL; try lia; [reflexivity|].
+  rewrite !lenN_cons in *. f_equal.
+  - specialize (H 0 ltac:(lia)). cbn in H. exact H.
+  - apply IH; [lia|]. intros i Hi. specialize (H (i + 1) ltac:(lia)). cbn [nthN] in H.
+    destruct (N.eqb_spec (i + 1) 0); [lia|]. now replace (i + 1 - 1) with i in H by lia.
+Qed.
+
+Lemma nthN_sliceN (l : bytes) off n i : i < n -> off + n <= lenN l -> nthN (sliceN l off n) i 0 = nthN l (off + i) 0.
+Proof. intros Hi Hl. unfold sliceN. rewrite nthN_firstnN by exact Hi. apply nthN_skipnN. Qed.
+
+(* the bytes of a planned write that no later write touches are found verbatim
+   in the output, at its position *)
+Theorem plan_slice_visible s before (w : N * bytes) after :
+  stream_ok s -> good s -> plan_small (os_len s) (before ++ w :: after) ->
+  (forall w' i, In w' after -> in_range w i = true -> in_range w' i = false) ->
+  sliceN (os_bytes (exec_plan s (before ++ w :: after))) (fst w) (lenN (snd w)) = snd w.
+Proof.
+  intros Hok Hg Hp Hdis.
+  destruct (exec_plan_flat (before ++ w :: after) s Hok Hg Hp) as (Ok' & _ & L' & B'). cbv zeta in *.
+  assert (Hlen : fst w + lenN (snd w) <= os_len (exec_plan s (before ++ w :: after))).
+  { rewrite L'. unfold plan_len. rewrite fold_left_app. cbn [fold_left].
+    generalize (fold_left (fun l (w0 : N * bytes) => N.max l (fst w0 + lenN (snd w0))) before (os_len s)). intro l0.
+    assert (G : forall (p : list (N * bytes)) l1, l1 <= fold_left (fun l (w0 : N * bytes) => N.max l (fst w0 + lenN (snd w0))) p l1).
+    { induction p as [|x t IH]; intro l1; cbn [fold_left]; [apply N.le_refl|]. eapply N.le_trans; [|apply IH]. apply N.le_max_l. }
+    eapply N.le_trans; [|apply G]. apply N.le_max_r. }
+  apply nthN_ext.
+  - unfold sliceN. rewrite lenN_firstnN, lenN_skipnN, lenN_os_bytes by exact Ok'. lia.
+  - intros i Hi. unfold sliceN in Hi. rewrite lenN_firstnN, lenN_skipnN, lenN_os_bytes in Hi by exact Ok'.
+    rewrite nthN_sliceN by (rewrite ?lenN_os_bytes by exact Ok'; lia).
+    rewrite B'. rewrite plan_write_visible.
+    + f_equal. lia.
+    + unfold in_range. destruct (N.leb_spec (fst w) (fst w + i)); destruct (N.ltb_spec (fst w + i) (fst w + lenN (snd w))); try reflexivity; lia.
+    + intros w' Hin. apply (Hdis w' (fst w + i) Hin).
+      unfold in_range. destruct (N.leb_spec (fst w) (fst w + i)); destruct (N.ltb_spec (fst w + i) (fst w + lenN (snd w))); try reflexivity; lia.
+Qed.
